@@ -30,17 +30,23 @@ def register(reg):
         notes="environment contract: get(timeout) either raises queue.Empty (at ANY time: sound over-approximation of a timeout) or returns the next "
               "not yet received object of SOME worker (per-producer FIFO; the sentinel None is each worker's last object)",
     ))
-    reg.add(Contract(file=REALIGN, func="one_is_alive", params=dict(processes=ListT(Proc)), returns=BOOL, trusted=True,
-                     notes="environment observation: any boolean (workers may exit or die between two actions of the parent)"))
-    reg.add(Contract(file=REALIGN, func="all_exited", params=dict(processes=ListT(Proc)), returns=BOOL, trusted=True,
-                     ensures={"observes-exit-codes": "result == all_exit_codes_zero"}, ghost_reads=["all_exit_codes_zero"],
-                     notes="environment observation: True iff every worker's exit code is 0 at this moment"))
+    # truthful observations of the worker processes.  alive1 = who is running when is_alive() is asked, alive2 / failed2 = who is still running /
+    # has terminated abnormally when the exit codes are read afterwards (a worker may stop in between, never restart: alive2 implies alive1)
+    reg.add(Contract(file=REALIGN, func="one_is_alive", params=dict(processes=ListT(Proc)), returns=BOOL, trusted=True, ghost_reads=["alive1"],
+                     ensures={"truthful": "result == exists(lambda w: 0 <= w < len(processes) and alive1[w])"},
+                     notes="environment observation: is at least one worker running now"))
+    reg.add(Contract(file=REALIGN, func="all_are_alive", params=dict(processes=ListT(Proc)), returns=BOOL, trusted=True, ghost_reads=["alive1"],
+                     ensures={"truthful": "result == forall(lambda w: implies(0 <= w < len(processes), alive1[w]))"},
+                     notes="environment observation: are all workers running now"))
+    reg.add(Contract(file=REALIGN, func="all_exited", params=dict(processes=ListT(Proc)), returns=BOOL, trusted=True, ghost_reads=["alive2", "failed2"],
+                     ensures={"observes-exit-codes": "result == forall(lambda w: implies(0 <= w < len(processes), not alive2[w] and not failed2[w]))"},
+                     notes="environment observation: every exit code is 0 (a running worker has exit code None, which is not 0)"))
     for occ, name in ((0, "#collector-full-groups"), (1, "#collector-leftover")):
         reg.add(Contract(
             file=REALIGN, func="realign_gaf", variant=name, fragment=("n_sentinels = 0", 2, occ),
             params=dict(processes=ListT(Proc), align_queue=MPQ, p_queue=ListT(PA)),
             ghost=dict(nres=MapT(INT, INT), pos=MapT(I2, INT), src_w=MapT(INT, INT), src_k=MapT(INT, INT), CN=MapT(INT, INT), CM=MapT(INT, INT),
-                       all_exit_codes_zero=BOOL, p0=INT),
+                       alive1=MapT(INT, BOOL), alive2=MapT(INT, BOOL), failed2=MapT(INT, BOOL), p0=INT),
             ufuns={"itm": ([INT, INT], PA)}, spec_funcs=ENV, types=dict(INT=INT),
             locals=dict(out_string_obj=Opt(PA), n_sentinels=INT),
             call_ghost={"MPQueue.get": {"nres": "nres", "W": "len(processes)"}, "all_exited": {}},
@@ -48,8 +54,10 @@ def register(reg):
                 "forall(lambda w: implies(0 <= w < len(processes), nres[w] >= 0 and align_queue.recv[w] == 0))",
                 "len(p_queue) == 0 and p0 == 0",
                 "CN[0] == 0 and CM[0] == 0 and forall(lambda w: implies(0 <= w <= len(processes), CN[w] == 0 and CM[w] == w))",
+                "forall(lambda w: implies(alive2[w], alive1[w]))",
             ],
-            loops={1: Loop(fingerprint="while n_sentinels != len(processes)", invariant={
+            loops={1: Loop(fingerprint="while n_sentinels != len(processes)", modifies=["alive1", "alive2", "failed2"], invariant={
+                "workers-do-not-restart": "forall(lambda w: implies(alive2[w], alive1[w]))",
                 "recv-in-range": "forall(lambda w: implies(0 <= w < W(), 0 <= align_queue.recv[w] <= nres[w] + 1))",
                 # every received result sits in p_queue exactly once (bijection by ghost maps): nothing dropped, nothing duplicated
                 "results-queued": "forall(lambda w, k: implies(0 <= w < W() and 0 <= k < got(w), 0 <= pos[(w, k)] < len(p_queue) and p_queue[pos[(w, k)]] == itm(w, k) "
@@ -76,7 +84,7 @@ def register(reg):
             exc_ensures={"SystemExit": {
                 # C13: the only abnormal way out is exit status 1, taken only when some worker's exit code is not 0
                 "non-zero-exit-status": "__exit_code__ == 1",
-                "only-when-a-worker-failed": "not all_exit_codes_zero",
+                "only-when-a-worker-terminated-abnormally": "exists(lambda w: 0 <= w < len(processes) and failed2[w])",
             }},
         ))
 
@@ -101,7 +109,7 @@ WFA_M = {
 
 def register_wfa(reg):
     reg.add(Contract(file="(assumed)/pywfa.py", func="WavefrontAligner.__call__", params=dict(self=Aligner, query=STR, clip_cigar=BOOL), returns=WfaResult,
-                     trusted=True, ensures={"tuples": "same(result.cigartuples, self.cigartuples)",
+                     trusted=True, raises={"MemoryError": "*"}, ensures={"tuples": "same(result.cigartuples, self.cigartuples)",
                                             "ops": "forall(lambda i: implies(0 <= i < len(self.cigartuples), self.cigartuples[i][1] >= 0 and (self.cigartuples[i][0] == 0 or "
                                                    "self.cigartuples[i][0] == 1 or self.cigartuples[i][0] == 2 or self.cigartuples[i][0] == 4 or self.cigartuples[i][0] == 8)))"},
                      notes="external C library (pywfa): the alignment it returns is NOT verified; only that cigartuples use op codes 0/1/2/4/8 with non-negative lengths"))
@@ -116,6 +124,7 @@ def register_wfa(reg):
         loops={
             1: Loop(index="it1", fingerprint="for gaf_line, ref, query, prior_counter in seq_batch", modifies=["MS", "TS", "ct"], invariant={
                 "one-item-per-record": "len(qu) == q0 + it1",
+                "all-items-so-far-are-results": "forall(lambda k: implies(q0 <= k < len(qu), not is_none(qu[k])))",
                 "earlier-items-kept": "forall(lambda k: implies(0 <= k < q0, qu[k] == old(qu)[k]))",
                 "priority-is-the-input-counter": "forall(lambda j: implies(0 <= j < it1, not is_none(qu[q0 + j]) and val(qu[q0 + j]).priority == seq_batch[j][3]))",
                 "columns-1-9-and-12-copied": "forall(lambda j: implies(0 <= j < it1, val(qu[q0 + j]).seq[0] == rec(j).query_name and val(qu[q0 + j]).seq[1] == str(rec(j).query_length) and "
@@ -151,6 +160,10 @@ def register_wfa(reg):
             "one-item-per-record-then-the-sentinel": "len(qu) == q0 + len(seq_batch) + 1 and is_none(qu[q0 + len(seq_batch)])",
             "priority-is-the-input-counter": "forall(lambda j: implies(0 <= j < len(seq_batch), not is_none(qu[q0 + j]) and val(qu[q0 + j]).priority == seq_batch[j][3]))",
         },
+        raises={"MemoryError": "*"},
+        exc_ensures={"MemoryError": {
+            # C13: a worker that crashes in the middle of its batch must NOT deliver its end-of-batch sentinel (the parent relies on that)
+            "no-sentinel-after-a-crash": "forall(lambda k: implies(q0 <= k < len(qu), not is_none(qu[k])))"}},
         notes="ghost L12 is declared below",
     ))
     reg.by_key[(REALIGN, "wfa_alignment")].ghost["L12"] = LINE
